@@ -313,7 +313,7 @@ def valid_case(case):
         if case.get("mode") == "top":
             return case["k"] in (0, 5)
         return case["cls"] in CTXS and case["pos"] in POSITIONS and case["L"] in (None, 0, LV) and case["O"] in (None, 0, OV) and bool(steps_of(case) is not None)
-    except Exception:
+    except (Exception, HarnessError):
         return False
 
 
